@@ -255,7 +255,7 @@ func generateCanaryWeight(canaryPercent int32) (stableWeight int32, canaryWeight
 func getServiceBackendRef(rule gatewayv1beta1.HTTPRouteRule, serviceName string) (int, *gatewayv1beta1.HTTPBackendRef) {
 	for i := range rule.BackendRefs {
 		ref := rule.BackendRefs[i]
-		if ref.Kind != nil && *ref.Kind == "Service" && string(ref.Name) == serviceName {
+		if ref.Kind != nil && *ref.Kind == "Service" && (ref.Group == nil || *ref.Group == "") && string(ref.Name) == serviceName {
 			return i, &ref
 		}
 	}
